@@ -39,7 +39,7 @@ def _samples(ctx, cg, n):
     return out
 
 # ------------------------------------------------------------------------------------------- C13
-def _history(ctx, cg, samples, maxlen=8):
+def _history(ctx, cg, samples, maxlen=8, corrupt=False):
     rng = ctx.rng
     opts, f0, sets0, b0 = rng.choice(samples)
     same = [s for s in samples if s[0] == opts]
@@ -54,12 +54,43 @@ def _history(ctx, cg, samples, maxlen=8):
         elif c < 0.65 and b is not None and cg.can_unpack:
             m = rng.choice(gen.malformed(rng, b, cg.length_fields, max_trunc=8) or [b""])
             ops.append(cg.unpack_op(m))
-        elif c < 0.9:
+        elif c < 0.84:
             k = rng.choice(list(f.keys()))
             ops.append("set %s %s" % (k, f[k]))
+        elif c < 0.90:
+            ops.append("iter")
+        elif c < 0.95 and cg.can_pack and corrupt:
+            # (oracle histories only: the models' domain excludes absurd values) a pack that raises part-way: a value that no struct code accepts in a LATER element of a list field
+            # (or in a plain field); what the object is left with must not leak into later calls
+            bad = _corrupt(rng, f)
+            if bad is not None:
+                ops.append("set %s %s" % bad)
+                ops.append(cg.pack_op())
+                ops.append("set %s %s" % (bad[0], f[bad[0]]))
         else:
             ops.append("obs")
     return opts, ops, same
+
+HUGE = str(2 ** 70)
+
+def _corrupt(rng, f):
+    """(field, canonical text) where one integer has been replaced by a value that cannot be packed; prefers the
+    second or later element of a list of objects"""
+    import re
+    ks = [k for k, v in f.items() if v.startswith("[") and v.count("{") >= 2]
+    if ks and rng.random() < 0.7:
+        k = rng.choice(ks)
+        v = f[k]
+        # positions of `name=<digits>` inside the second or later element
+        second = v.find("};") + 2
+        m = list(re.finditer(r"=(\d+)(?=[,}])", v[second:]))
+        if m:
+            mm = rng.choice(m)
+            return k, v[:second + mm.start(1)] + HUGE + v[second + mm.end(1):]
+    ks = [k for k, v in f.items() if v.isdigit()]
+    if ks:
+        return rng.choice(ks), HUGE
+    return None
 
 def corr_C13(ctx):
     lines = []
@@ -132,6 +163,75 @@ def _shrink_ops(args, key, check, what):
     out[key] = ops
     return out, what
 
+def _mutate_in_place(o, rng, depth=0):
+    """change every mutable thing reachable from `o` in place (without assigning o's own attributes):
+    lists get an element appended, bytearrays a byte, nested objects get their int attributes changed"""
+    n = 0
+    for name, v in list(vars(o).items()) if hasattr(o, "__dict__") else []:
+        if isinstance(v, list):
+            v.append(v[0] if v else 0x5A)
+            n += 1
+        elif isinstance(v, bytearray):
+            v.append(0x5A)
+            n += 1
+        elif isinstance(v, dict):
+            v["__verif__"] = 1
+            n += 1
+        elif hasattr(v, "__dict__") and not isinstance(v, type) and depth < 2 and type(v).__module__.startswith("AcraNetwork"):
+            for an, av in list(vars(v).items()):
+                if isinstance(av, int) and not isinstance(av, bool):
+                    try:
+                        setattr(v, an, av + 1)
+                        n += 1
+                    except Exception:
+                        pass
+            n += _mutate_in_place(v, rng, depth + 1)
+    return n
+
+def check_no_sharing(args):
+    """two objects of one class built the same way share no state: changing one in place (appending to its
+    lists, stamping its nested time objects, decoding a buffer into it) leaves the other exactly as it was"""
+    cls, opts = args["cls"], args["opts"]
+    a = ADAPTERS[cls]
+    cg = _classgens()[cls]
+    po = [pyval(parse_val(x)) for x in opts]
+    x, y = a.ctor(*po), a.ctor(*po)
+    before = guarded(lambda: canon(y))
+    rng = core.Rng(args.get("seed", 0))
+    _mutate_in_place(x, rng)
+    if args.get("buf") and cg.can_unpack:
+        guarded(lambda: a.unpack(x, bytes.fromhex(args["buf"]), *[pyval(parse_val(v)) for v in cg.unpack_args]))
+        _mutate_in_place(x, rng)
+    after = guarded(lambda: canon(y))
+    if before[0] == "ok" and after[0] == "ok" and before[1] != after[1]:
+        return "%s: changing one object in place changed another object built the same way: %s -> %s" % (
+            cls, before[1][:200], after[1][:200])
+    z = a.ctor(*po)
+    fresh = guarded(lambda: canon(z))
+    if before[0] == "ok" and fresh[0] == "ok" and before[1] != fresh[1]:
+        return "%s: a newly constructed object no longer starts in the initial state: %s instead of %s" % (
+            cls, fresh[1][:200], before[1][:200])
+    return None
+
+def oracle_no_sharing(ctx, classes=None):
+    """run for every codec class (cheap); contributes to every codec property: a round trip 'into a new object'
+    means nothing if new objects share state"""
+    fails, n = [], 0
+    for name, cg in sorted(_classgens().items()):
+        if classes is not None and name not in classes:
+            continue
+        for opts in cg.opts[:3]:
+            f = cg.valid(ctx.rng)
+            b = _valid_bytes(cg, opts, gen.sets(f)) if cg.can_pack else None
+            args = {"cls": cg.cls, "opts": list(opts), "buf": b.hex() if b else None, "seed": ctx.seed}
+            n += 1
+            w = check_no_sharing(args)
+            if w:
+                fails.append(Failure("no_sharing", args, w, {"class": cg.cls, "check": "aliasing"}))
+                break
+    ctx.count("oracle_evaluations", n)
+    return fails
+
 def oracles_C13(ctx, hints):
     fails = []
     n = 0
@@ -139,7 +239,7 @@ def oracles_C13(ctx, hints):
         samples = _samples(ctx, cg, 6)
         bad = False
         for _ in range(ctx.scale(60, 3000) * (4 if getattr(ctx, "search_mode", False) else 1)):
-            opts, ops, same = _history(ctx, cg, samples)
+            opts, ops, same = _history(ctx, cg, samples, corrupt=True)
             bs = [s for s in same if s[3] is not None]
             final = []
             if bs and cg.can_unpack:
@@ -171,7 +271,7 @@ def oracles_C13(ctx, hints):
                 fails.append(Failure("two_objects", args, w, {"class": cg.cls, "check": "aliasing"}))
                 break
     ctx.count("oracle_evaluations", n)
-    return fails
+    return fails + oracle_no_sharing(ctx)
 
 # ------------------------------------------------------------------------------------------- C14
 def _twins(ctx, cg):
@@ -193,6 +293,8 @@ def _twins(ctx, cg):
                 h[k] = alt
                 out.append((opts, f, h, k))
                 break
+    for fa2, fb2, label in (cg.extra_twins(rng) if getattr(cg, "extra_twins", None) else []):
+        out.append((opts, fa2, fb2, label))
     for grp in getattr(cg, "groups", ()):
         for _ in range(6):
             g = cg.valid(rng)
@@ -222,13 +324,15 @@ def check_eq(args):
     a = ADAPTERS[cls]
     cg = _classgens()[cls]
     po = [pyval(parse_val(x)) for x in opts]
-    oa, da, _ = run_ops_impl(a, po, gen.sets(fa))
+    oa, da, _ = run_ops_impl(a, po, gen.sets(fa) + (["iter"] if args.get("iter") else []))
     ob, db, _ = run_ops_impl(a, po, gen.sets(fb))
     if da or db:
         return None
     st = guarded(lambda: oa == ob)
     if st[0] != "ok":
-        return "%s: comparing two %s objects raised (%s)" % (cls, cls, st[1])
+        return "%s: comparing two %s objects raised (%s)%s" % (cls, cls, st[1], " after the left one had been iterated" if args.get("iter") else "")
+    if args.get("iter") and fa == fb and st[1] is not True:
+        return "%s: identical twins compare unequal after the left one had been iterated" % cls
     if st[1] and cg.can_pack:
         pa = guarded(lambda: a.pack(oa, *[pyval(parse_val(x)) for x in cg.pack_args]))
         pb = guarded(lambda: a.pack(ob, *[pyval(parse_val(x)) for x in cg.pack_args]))
@@ -295,6 +399,8 @@ def oracles_C14(ctx, hints):
             twins = _twins(ctx, cg)
             for opts, fa, fb, k in twins:
                 args = {"cls": cg.cls, "opts": list(opts), "a": fa, "b": fb, "field": k}
+                if ctx.rng.random() < 0.3:
+                    args["iter"] = True           # the left operand has been walked with its iterator before
                 n += 1
                 w = check_eq(args)
                 if w and ("eq", k) not in done:
@@ -389,5 +495,5 @@ def oracles_C08(ctx, hints):
     ctx.count("oracle_evaluations", n)
     return fails
 
-ORACLES = {"history_independence": check_history_independence, "two_objects": check_two_objects,
+ORACLES = {"no_sharing": check_no_sharing, "history_independence": check_history_independence, "two_objects": check_two_objects,
            "eq": check_eq, "eq_decode": check_eq_decode, "eq_foreign": check_eq_foreign, "total": check_total}
